@@ -14,6 +14,7 @@ using namespace vh;
 
 static bool inited = false;
 static std::string out_dir;
+static std::vector<int> allowed;   // strata this stage owns (VERIF_FZ_STRATA); empty = any
 
 extern "C" int LLVMFuzzerInitialize(int *argc, char ***argv) {
   // options after "--" style env: VERIF_FZ_PROP, VERIF_FZ_KNOWN, VERIF_FZ_OUT, VERIF_FZ_LOG, VERIF_FZ_WORKER
@@ -23,6 +24,13 @@ extern "C" int LLVMFuzzerInitialize(int *argc, char ***argv) {
   if (const char *o = getenv("VERIF_FZ_OUT")) out_dir = o;
   if (const char *l = getenv("VERIF_FZ_LOG")) cfg.logdir = l;
   if (const char *w = getenv("VERIF_FZ_WORKER")) cfg.worker = atoi(w);
+  if (const char *a = getenv("VERIF_FZ_STRATA")) {
+    for (const char *q = a; *q;) {
+      allowed.push_back(atoi(q));
+      while (*q && *q != ',') q++;
+      if (*q == ',') q++;
+    }
+  }
   setenv("VERIF_NOCAPTURE", "1", 1);  // libFuzzer prints its own statistics on stderr
   init_runtime();
   inited = true;
@@ -35,6 +43,12 @@ extern "C" int LLVMFuzzerTestOneInput(const uint8_t *data, size_t size) {
   uint32_t h = data[0] | (data[1] << 8);
   cfg.stratum = (int)h - 1;
   if (cfg.stratum > 4096) return 0;
+  if (!allowed.empty()) {
+    // a mutated header may name a stratum of another property (other component / kind): not this check's domain
+    bool ok = false;
+    for (int a : allowed) ok = ok || a == cfg.stratum;
+    if (!ok) return 0;
+  }
   CaseCtx c;
   begin_case(c, data, size);
   run_case(data + 2, size - 2, c);
